@@ -9,10 +9,11 @@ KEYS = [b"a", b"b", b"c", b"", b"k/1", b"x~y", b"long" * 20]
 
 
 class Node:
-    __slots__ = ("uid", "kind", "kids", "rc", "alive")
+    __slots__ = ("uid", "kind", "kids", "rc", "alive", "cb0")
 
     def __init__(self, uid, kind):
         self.uid, self.kind, self.rc, self.alive = uid, kind, 1, True
+        self.cb0 = False   # a delete callback is registered although the userdata pointer is NULL (the callback then reports 0)
         self.kids = {} if kind == "obj" else [] if kind == "arr" else None
 
     def children(self):
@@ -30,12 +31,18 @@ def contains(a, b):
     return any(contains(c, b) for c in a.children())
 
 
+def has_cb0(n):
+    return n is not None and (n.cb0 or any(has_cb0(c) for c in n.children()))
+
+
 def decref(n, dead):
     n.rc -= 1
     if n.rc == 0:
         n.alive = False
         if n.uid:
             dead.append(n.uid)  # anonymous nodes (created by json_patch from the patch's values) carry no callback
+        elif n.cb0:
+            dead.append(0)
         for c in n.children():
             decref(c, dead)
 
@@ -215,6 +222,11 @@ def gen_history(rng, nops):
                 hv = hn
             else:
                 hv = rng.choice(vs)
+                # a value the caller holds its own reference to and that already IS a member of this object is stored back under its own name half of the
+                # time: the member's old reference is released, the caller's is taken over -- nothing is destroyed, nothing leaks
+                same = [(h, kk) for h in vs for kk, vv in c.kids.items() if vv is H[h][0]]
+                if same and rng.random() < 0.5:
+                    hv, k = rng.choice(same)
                 v = H[hv][0]
                 if contains(v, c):
                     continue  # would create a cycle
@@ -225,7 +237,7 @@ def gen_history(rng, nops):
             c.kids[k] = v
             if v is not None:
                 H[hv][1] = False  # reference transferred; the handle is now a borrowed pointer
-            emit("OADD %d x%s %d %d" % (hc, k.hex(), hv, 4 if rng.random() < 0.2 else 0), ret=0, dels=dead)  # 4 = JSON_C_OBJECT_ADD_CONSTANT_KEY (interned key)
+            emit("OADD %d x%s %d %d" % (hc, k.hex(), hv, 4 if rng.random() < 0.2 else 0), ret=0, dels=dead, **({"tag": "member_stored_back_under_its_own_name"} if (v is not None and old is v) else {}))  # 4 = JSON_C_OBJECT_ADD_CONSTANT_KEY (interned key)
         elif r < 0.70:
             cs = [h for h in alive_handles("obj") if H[h][0].kids]
             if not cs:
@@ -264,6 +276,9 @@ def gen_history(rng, nops):
             if not vs:
                 continue
             hv = rng.choice(vs)
+            inside = [h for h in vs if any(x is H[h][0] for x in c.kids)]
+            if inside and op == "put" and rng.random() < 0.5:
+                hv = rng.choice(inside)
             v = H[hv][0]
             if contains(v, c):
                 continue
@@ -271,15 +286,21 @@ def gen_history(rng, nops):
                 emit("APUT %d max %d" % (hc, hv), ret=-1, dels=[])
                 continue
             dead = []
+            tagged = False
             if op == "add":
                 c.kids.append(v)
                 cmd = "AADD %d %d" % (hc, hv)
             elif op == "put":
                 i = rng.choice([0, L, L + 2, max(0, L - 1), rng.randrange(L + 1)])
+                same = [j for j, x in enumerate(c.kids) if x is v]
+                if same and rng.random() < 0.6:
+                    i = rng.choice(same)   # the element is stored back into its own slot (the caller holds a reference of its own)
                 if i < L:
                     if c.kids[i] is not None:
                         if c.kids[i] is v and v.rc == 1:
                             continue
+                        if c.kids[i] is v:
+                            tagged = True
                         decref(c.kids[i], dead)
                     c.kids[i] = v
                 else:
@@ -293,7 +314,7 @@ def gen_history(rng, nops):
                 # the value itself died because it was (transitively) inside the overwritten element: not a legal history
                 raise AssertionError("generator bug")
             H[hv][1] = False
-            emit(cmd, ret=0, dels=dead)
+            emit(cmd, ret=0, dels=dead, **({"tag": "element_stored_back_into_its_own_slot"} if tagged else {}))
         elif r < 0.89:
             hs = alive_handles()
             if not hs:
@@ -301,12 +322,17 @@ def gen_history(rng, nops):
             h = rng.choice(hs)
             n = H[h][0]
             uid[0] += 1
-            old = n.uid
-            n.uid = uid[0]
+            old = [n.uid] if n.uid else ([0] if n.cb0 else [])
+            if rng.random() < 0.08:
+                # a callback registered with a NULL userdata pointer: it is still a registration, released like any other
+                n.uid, n.cb0 = 0, True
+                emit("UD %d 0" % h, dels=old, tag="callback_registered_with_NULL_userdata")
+                continue
+            n.uid, n.cb0 = uid[0], False
             if rng.random() < 0.5:
-                emit("UD %d %d" % (h, uid[0]), dels=[old])
+                emit("UD %d %d" % (h, uid[0]), dels=old)
             else:
-                emit("SS %d %d %d" % (h, uid[0], rng.randrange(2)), dels=[old])
+                emit("SS %d %d %d" % (h, uid[0], rng.randrange(2)), dels=old)
         elif r < 0.905:
             # json_pointer_set: the value's reference is transferred on success (exact model: RFC 6901 location, put_idx semantics)
             cs = alive_handles("obj") + alive_handles("arr")
@@ -317,6 +343,19 @@ def gen_history(rng, nops):
             hv = rng.choice(vs)
             v = H[hv][0]
             loc = pick_location(rng, H[hc][0])
+            # a value the caller holds its own reference to may be set at the very location where it already is (same node, same pointer)
+            occ = []
+            for h_ in vs:
+                root_ = H[hc][0]
+                for par, pre in [(root_, b"")] + [(c_, b"/" + (esc_tok(k_) if root_.kind == "obj" else str(k_).encode())) for k_, c_ in (root_.kids.items() if root_.kind == "obj" else enumerate(root_.kids)) if c_ is not None and c_.kind in ("obj", "arr")]:
+                    for w_, x_ in (par.kids.items() if par.kind == "obj" else enumerate(par.kids)):
+                        if x_ is H[h_][0]:
+                            occ.append((h_, (par, pre, esc_tok(w_) if par.kind == "obj" else str(w_).encode(), w_)))
+            same_loc = False
+            if occ and rng.random() < 0.5:
+                hv, loc = rng.choice(occ)
+                v = H[hv][0]
+                same_loc = True
             if loc is None:
                 continue
             parent, prefix, last, where = loc
@@ -328,7 +367,7 @@ def gen_history(rng, nops):
             if not v.alive:
                 raise AssertionError("generator bug (pset)")
             H[hv][1] = False
-            emit("PSET %d x%s %d" % (hc, (prefix + b"/" + last).hex(), hv), ret=0, dels=dead)
+            emit("PSET %d x%s %d" % (hc, (prefix + b"/" + last).hex(), hv), ret=0, dels=dead, **({"tag": "pointer_set_of_a_node_at_its_own_location"} if same_loc else {}))
         elif r < 0.92:
             # json_patch_apply in place with remove / move / add-scalar / replace-scalar operations (exactly modelled);
             # the patch document stays the caller's and must be freed by the caller's put
@@ -415,6 +454,8 @@ def gen_history(rng, nops):
             if not hs or h2 is None:
                 continue
             h = rng.choice(hs)
+            if has_cb0(H[h][0]):
+                continue   # (a node with a callback but NULL userdata cannot be copied by the default shallow copy the tracking copy builds on: not modelled)
             nu = [uid[0] + 1]
             cp = copy_tree(H[h][0], nu)
             first = uid[0] + 1
@@ -483,7 +524,7 @@ def shard_fn(shard, nshards, seed, tier, exe, nhist):
                 raise core.Inconclusive("driver rejected %r: %s" % (c, ln))
             if "dels" in e:
                 dels = parse_del(ln)
-                dup = [d for d in dels if d in seen]
+                dup = [d for d in dels if d in seen and d != 0]   # 0 = a callback registered with NULL userdata; several nodes may have one
                 seen.update(dels)
                 if dup:
                     key, what = "destroyed-twice", "uid(s) %s destroyed a second time at %r" % (dup, c)
@@ -511,6 +552,8 @@ def shard_fn(shard, nshards, seed, tier, exe, nhist):
                 sh.violation("C05/" + key, what + " (command #%d)" % ci, dict(rep, failing_command=ci))
                 break
             sh.count("op." + op)
+            if e.get("tag"):
+                sh.count("op." + e["tag"])
         if not key and lines[-1].split()[1] != "live=0":
             sh.violation("C05/leak", "memory still allocated after every reference was released: " + lines[-1], rep)
         sh.nontrivial("\n".join(cmds))
